@@ -2,7 +2,7 @@
    Only ExtrOcamlBasic is used (bool, option, unit, list, prod, sumbool
    mapped to OCaml's; andb/orb inlined); Z, N, positive, nat stay the
    extracted inductive datatypes. *)
-From Strcase Require Import Base Utf8 Fold Spec FoldTables Impl Impl2 Impl3 Impl4 Impl5 Impl6 Kernels.
+From Strcase Require Import Base Utf8 Fold Spec FoldTables Impl Impl2 Impl3 Impl4 Impl5 Impl6 Impl7 Kernels.
 From StrcaseGen Require Consts.
 From Coq Require Import Extraction ExtrOcamlBasic.
 Extraction Language OCaml.
@@ -101,6 +101,13 @@ Definition i_brute_str := Impl6.bruteForceIndexUnicode fold121 lower_str (fold_m
 Definition i_brute_byt := Impl6.bruteForceIndexUnicode fold121 lower_byt (fold_map_excl T121) (to_upper_lower T121) Byt.
 Definition i_rk_str := Impl6.indexRabinKarpUnicode fold121 lower_str StrcaseGen.Consts.str_primeRK Str.
 Definition i_rk_byt := Impl6.indexRabinKarpUnicode fold121 lower_byt StrcaseGen.Consts.byt_primeRK Byt.
+Definition i_LastIndex_str := Impl7.LastIndex fold121 lower_str (fold_map T121) (to_upper_lower T121) StrcaseGen.Consts.str_primeRK Str.
+Definition i_LastIndex_byt := Impl7.LastIndex fold121 lower_byt (fold_map T121) (to_upper_lower T121) StrcaseGen.Consts.byt_primeRK Byt.
+Definition i_rkrev_str := Impl7.indexRabinKarpRevUnicode fold121 lower_str StrcaseGen.Consts.str_primeRK.
+Definition i_IndexAny_a := Impl7.IndexAny true cutover_amd64 (fold_map T121) (to_upper_lower T121).
+Definition i_IndexAny_c := Impl7.IndexAny false cutover_arm64 (fold_map T121) (to_upper_lower T121).
+Definition i_LastIndexAny_a := Impl7.LastIndexAny true cutover_amd64 (fold_map T121) (to_upper_lower T121).
+Definition i_LastIndexAny_c := Impl7.LastIndexAny false cutover_arm64 (fold_map T121) (to_upper_lower T121).
 Definition i_contains_kelvin := Impl.contains_kelvin.
 Definition i_index_byte_generic := index_byte_generic.
 Definition i_count_generic := count_generic.
@@ -114,7 +121,8 @@ Extraction "model.ml"
   i_index_rune_case_a i_index_rune_case_b i_index_rune_case_c i_index_byte_pair_a i_index_byte_pair_c
   i_IndexByte_a i_IndexByte_c i_IndexByteASCII i_LastIndexByte i_index_rune2_a i_index_rune_pair_a i_index_rune_pair_c
   i_IndexRune_a i_IndexRune_c i_last_index_rune_str i_last_index_rune_byt
-  i_Index_str_a i_Index_byt_a i_Index_str_c i_Index_byt_c i_brute_str i_brute_byt i_rk_str i_rk_byt i_contains_kelvin i_index_byte_generic i_count_generic i_count_simd i_index_non_ascii_generic
+  i_Index_str_a i_Index_byt_a i_Index_str_c i_Index_byt_c i_brute_str i_brute_byt i_rk_str i_rk_byt
+  i_LastIndex_str i_LastIndex_byt i_rkrev_str i_IndexAny_a i_IndexAny_c i_LastIndexAny_a i_LastIndexAny_c i_contains_kelvin i_index_byte_generic i_count_generic i_count_simd i_index_non_ascii_generic
   m_case_fold m_fold_map m_fold_map_excl m_to_upper_lower m_lower_str m_lower_byt
   m_decode m_decode_last m_rune_len m_valid_rune m_encode m_rune_count m_valid_utf8
   s_compare s_equal_fold s_index s_contains s_last_index s_has_prefix s_has_suffix
